@@ -30,6 +30,7 @@ class Slow(BaseException):
 
 
 WALL_LIMIT = float(os.environ.get("VERIF_PARSE_WALL", "6"))
+_slow_events = [0]       # after a few watchdog hits in this process the limit drops: the violation is already established
 
 
 def _alarm(signum, frame):
@@ -154,7 +155,7 @@ def run_parse(p, data, rt=False):
         # a regular expression that backtracks exponentially never reaches the token counter:
         # wall-clock watchdog (normal parses of these inputs take well under a millisecond)
         old = signal.signal(signal.SIGALRM, _alarm)
-        signal.setitimer(signal.ITIMER_REAL, WALL_LIMIT)
+        signal.setitimer(signal.ITIMER_REAL, WALL_LIMIT if _slow_events[0] < 3 else 0.3)
     try:
         try:
             r = p.parse(data)
@@ -167,6 +168,7 @@ def run_parse(p, data, rt=False):
         out["yields"] = getattr(p.lexer, "yields", -1)
         return out
     except Slow:
+        _slow_events[0] += 1
         out["cls"] = "hang"
         out["exc"] = "no result after %.0f s wall-clock for %d bytes" % (WALL_LIMIT, len(data))
         return out
